@@ -95,3 +95,28 @@ Definition conf_case_k (kinds : list (list N)) (mk : list N) (cl : bool) (cfg : 
 
 Definition ob (fr : list (N * list frame)) (cl : list N) (md : list modcall) : oobs :=
   {| ob_frames := fr; ob_closed := cl; ob_mod := md |}.
+
+(* ---------- the same correspondence over step_x (Model/ServerX.v): outbound frames that do not fit the message
+   buffer are replaced (replies) or kill the receiving connection (unsolicited frames) ---------- *)
+From NW Require Import Model.ServerX.
+
+(* which of the frames queued in the same op a dying connection still got out depends on task scheduling (they share the
+   batch of the frame that cannot be serialized, or were flushed just before): the frames of dead connections are not compared *)
+Definition op_conf_kx (kinds : list (list N)) (mk : list N) (cl : bool) (o : op) (os : list out) (dead : list N) (ob : oobs) : bool :=
+  let hs := filter (fun h => negb (existsb (N.eqb h) dead)) (out_handlers os ++ map fst (ob_frames ob)) in
+  forallb (fun h => frames_eqb (canon (filter (keep_frame kinds) (frames_for h os)))
+                               (canon (filter (keep_frame kinds) (match nlookup h (ob_frames ob) with Some l => l | None => [] end)))) hs
+  && (negb cl || nset_eqb (closed_of os ++ dead ++ op_closed o) (ob_closed ob))
+  && modcalls_eqb (canon_mods (filter (keep_mod mk) (mods_of os))) (canon_mods (filter (keep_mod mk) (ob_mod ob))).
+
+Fixpoint conf_from_kx (kinds : list (list N)) (mk : list N) (cl : bool) (i : N) (cfg : scfg) (s : state) (ops : list op) (obs : list oobs) : N :=
+  match ops, obs with
+  | [], [] => 0
+  | o :: ops', ob :: obs' =>
+      let '(s', os, dead) := step_x cfg s o in
+      if op_conf_kx kinds mk cl o os dead ob then conf_from_kx kinds mk cl (i + 1) cfg s' ops' obs' else i + 1
+  | _, _ => i + 1
+  end.
+Definition conf_case_x (cfg : scfg) (ops : list op) (obs : list oobs) : bool := conf_from_kx [] [] true 0 cfg init ops obs =? 0.
+Definition conf_case_kx (kinds : list (list N)) (mk : list N) (cl : bool) (cfg : scfg) (ops : list op) (obs : list oobs) : bool :=
+  conf_from_kx kinds mk cl 0 cfg init ops obs =? 0.
